@@ -523,3 +523,223 @@ class Planner:
 
     def script(self):
         return list(self.ev)
+
+
+# ----------------------------------------------------------------------------- trace Spec (C06, C10)
+
+def run_trace(ctx, fw, scripts, obs):
+    """`Abverif.SessTrace.check` (through the driver) on traces observed elsewhere.
+    -> per script: list of (token index, violation string)"""
+    lines = [f"sesstrace {MODE[fw]} {len(sc)} " + " ".join(sc) + " " + " ".join(o) for sc, o in zip(scripts, obs)]
+    out = ctx.driver.run(lines)
+    res = []
+    for sc, o in zip(scripts, out):
+        if o == "bad-op":
+            raise RuntimeError("driver rejected trace of script: " + " ".join(sc))
+        if o.strip() == "ok":
+            res.append([])
+        else:
+            res.append([(int(x.split(":")[0]), x.split(":", 1)[1]) for x in o.split()])
+    return res
+
+
+def check_traces(ctx, res, items, owns, classify, frameworks=("twisted", "asyncio"), shrink=True, label="", prefix=1):
+    """items: list of (class label, script, spec_checked). Every script runs on every framework; each observation line
+    is compared with the Lean model (correspondence); for spec-checked scripts the implementation's trace is judged by
+    the Lean trace Spec; violations `owns` accepts are classified (`classify(script, index, violation, fw) -> key`),
+    shrunk (ddmin, same key) and reported."""
+    scripts = [it[1] for it in items]
+    by_key = {}
+    breaks = []
+    for fw in frameworks:
+        impl = run_impl(fw, scripts)
+        ctx.log(f"{label}{fw}: implementation ran {len(scripts)} scripts")
+        model = run_model(ctx, fw, scripts)
+        sidx = [i for i, it in enumerate(items) if it[2]]
+        verdicts = dict(zip(sidx, run_trace(ctx, fw, [scripts[i] for i in sidx], [impl[i] for i in sidx])))
+        ctx.log(f"{label}{fw}: model and trace spec ran")
+        for i, (sc_, a, m) in enumerate(zip(scripts, impl, model)):
+            res.evaluations += len(sc_)
+            res.traces_validated += 1
+            md = first_model_divergence(a, m)
+            if md is not None:
+                breaks.append({"stream": f"model vs {fw} implementation", "script": sc_, "event": md[0],
+                               "model": md[1], "implementation": md[2]})
+            for (j, v) in verdicts.get(i, []):
+                if not owns(v):
+                    continue
+                key = classify(sc_, j, v, fw)
+                cur = by_key.get(key)
+                if cur is None or len(sc_) < len(cur.script):
+                    by_key[key] = Divergence(fw, sc_, j, [v], a[j] if j < len(a) else "", key)
+                res.count("violation:" + key)
+    res.correspondence_breaks += breaks[:20]
+    res.count(label + "correspondence-breaks", len(breaks))
+    known = {k["key"] for k in core.load_known() if k.get("property") == ctx.prop and k.get("status", "open") == "open"}
+    servers = {}
+    for key, d in sorted(by_key.items()):
+        sc_ = d.script
+        if shrink and key not in known and len(sc_) > prefix + 1:
+            ctx.log(f"{label}shrinking {key} ({len(sc_)} events)")
+            if d.fw not in servers:
+                servers[d.fw] = ImplServer(d.fw)
+
+            def fails(cands, d=d, key=key):
+                a = servers[d.fw].run(cands)
+                good = [(c, o) for c, o in zip(cands, a) if len(o) == len(c)]
+                vs = run_trace(ctx, d.fw, [c for c, _ in good], [o for _, o in good]) if good else []
+                ok = {id(c): any(owns(v) and classify(c, j, v, d.fw) == key for j, v in vv) for (c, _), vv in zip(good, vs)}
+                return [ok.get(id(c), False) for c in cands]
+            sc_ = ddmin(sc_, fails, keep_prefix=prefix)
+            a = servers[d.fw].run([sc_])[0]
+            vv = run_trace(ctx, d.fw, [sc_], [a])[0]
+            hit = next(((j, v) for j, v in vv if owns(v) and classify(sc_, j, v, d.fw) == key), None)
+            if hit is not None:
+                d = Divergence(d.fw, sc_, hit[0], [hit[1]], a[hit[0]], key)
+        res.violations.append(core.Violation(
+            key,
+            f"{d.fw}: event #{d.index} `{d.script[d.index]}`: trace Spec verdict [{';'.join(d.expected)}]; "
+            f"the implementation did [{d.actual}]; script: {' '.join(d.script)}",
+            {"framework": d.fw, "script": d.script, "event_index": d.index, "verdict": d.expected, "actual": d.actual}))
+    for sv in servers.values():
+        sv.close()
+    return {"keys": sorted(by_key), "breaks": len(breaks)}
+
+
+# ----------------------------------------------------------------------------- part B: the real transports
+
+REAL_WORKER = core.VERIF / "harness" / "workers" / "sess_real.py"
+COMBOS = [(k, s) for k in ("rs", "ws") for s in ("json", "msgpack", "cbor")]
+
+
+def run_real(fw, jobs, timeout=3000):
+    """jobs: [{"kind","ser","link":{..},"scripts":[..]}] -> per job, per script, the observation lines"""
+    p = subprocess.run([core.PY, str(REAL_WORKER), fw], input=json.dumps({"jobs": jobs}), env=_env(),
+                       capture_output=True, text=True, cwd="/", timeout=timeout)
+    if p.returncode != 0:
+        raise RuntimeError(f"sess_real({fw}) failed: " + p.stderr[-2000:])
+    obs = json.loads(p.stdout)["obs"]
+    for j, o in zip(jobs, obs):
+        for sc_, lines in zip(j.get("scripts", []), o):
+            if len(lines) != len(sc_):
+                raise RuntimeError(f"sess_real({fw}): harness error on script {sc_}: {lines[:1]}")
+    return obs
+
+
+def run_real_parallel(fw, jobs, nproc=6):
+    if not jobs:
+        return []
+    n = max(1, min(nproc, len(jobs)))
+    chunks = [jobs[i::n] for i in range(n)]
+    with ThreadPoolExecutor(n) as ex:
+        outs = list(ex.map(lambda c: run_real(fw, c), chunks))
+    res = [None] * len(jobs)
+    for i, o in enumerate(outs):
+        for j, x in enumerate(o):
+            res[i + j * n] = x
+    return res
+
+
+def merge_pairs(script, lines, drop=("t:",)):
+    """real transports run the loop inside every transport event: compare (event, pump) pairs as one observation.
+    -> list of (token, [observation tokens])"""
+    out = []
+    i = 0
+    while i < len(script):
+        toks = tokens(lines[i])
+        step = 1
+        if i + 1 < len(script) and script[i + 1] == "pump":
+            toks = toks + tokens(lines[i + 1])
+            step = 2
+        toks = [t for t in toks if not t.startswith(drop)]
+        out.append((script[i], [t for t in toks if not t.startswith("done:")] + sorted(t for t in toks if t.startswith("done:"))))
+        i += step
+    return out
+
+
+def cut_after_close(script, model_lines, tail=("closed", "pump", "call,1,a,k,n,ok", "pump")):
+    """the model's transport accepts messages after close() and goes on delivering after a protocol violation; a real
+    one does neither (it is closing / it fails the connection): end the conversation there"""
+    for i, l in enumerate(model_lines):
+        if "close" in tokens(l) or (script[i].startswith("m.") and any(t.startswith("raise:") for t in tokens(l))):
+            j = i + 1
+            if j < len(script) and script[j] == "pump":
+                j += 1
+            rest = [t for t in script[j:] if t.partition(";")[0].split(",")[0] == "closed"]
+            if j >= len(script):
+                return script
+            return script[:j] + (rest[:1] if rest else ["closed"]) + list(tail[1:])
+    return script
+
+
+def always_pumped(script):
+    return all(script[i] == "pump" or (i + 1 < len(script) and script[i + 1] == "pump") for i in range(len(script)))
+
+
+def auto_pump(fw, kind):
+    """the asyncio WebSocket transport processes received bytes through the loop"""
+    return fw == "asyncio" and kind == "ws"
+
+
+def check_real(ctx, res, items, owns, classify, combos=COMBOS, frameworks=("twisted", "asyncio"), label="real: ", link=None,
+               compare=None):
+    """items: (label, script, spec_checked). Each script runs over every real transport x serializer of every framework
+    (scripts that do not pump after every event are skipped for the asyncio WebSocket transport, whose tokens include a
+    run of the loop); observations are compared with the model's — token by token, or (event, pump) pair by pair for
+    asyncio WebSocket — and the trace is judged by the Lean trace Spec."""
+    by_key = {}
+    breaks = []
+    for fw in frameworks:
+        scripts0 = [it[1] for it in items]
+        model0 = run_model(ctx, fw, scripts0)
+        # a 4th item field False: messages that arrive in the same read as the one that made this side close
+        scripts = [cut_after_close(s, m) if (len(it) < 4 or it[3]) else s for it, s, m in zip(items, scripts0, model0)]
+        model = run_model(ctx, fw, scripts)
+        sel = {(k, s): [i for i, sc_ in enumerate(scripts) if not auto_pump(fw, k) or always_pumped(sc_)] for k, s in combos}
+        jobs = [{"kind": k, "ser": s, "link": (link or {}), "scripts": [scripts[i] for i in sel[(k, s)]]} for k, s in combos]
+        obs = run_real_parallel(fw, jobs)
+        ctx.log(f"{label}{fw}: {len(scripts)} scripts over {len(combos)} transport x serializer combinations")
+        for (k, sname), o in zip(combos, obs):
+            idx = sel[(k, sname)]
+            o = dict(zip(idx, o))
+            sidx = [i for i in idx if items[i][2]]
+            clean = [[";".join(t for t in tokens(l) if not t.startswith("t:")) or "-" for l in o[i]] for i in sidx]
+            verdicts = dict(zip(sidx, run_trace(ctx, fw, [scripts[i] for i in sidx], clean)))
+            for i in idx:
+                sc_, a, m = scripts[i], o[i], model[i]
+                res.evaluations += len(sc_)
+                res.traces_validated += 1
+                if auto_pump(fw, k):
+                    A, M = merge_pairs(sc_, a), merge_pairs(sc_, m, drop=("t:", "sendfail:"))
+                else:
+                    A = [(t, [x for x in tokens(l) if not x.startswith("t:")]) for t, l in zip(sc_, a)]
+                    M = [(t, [x for x in tokens(l) if not x.startswith("sendfail:")]) for t, l in zip(sc_, m)]
+                if compare is not None:
+                    A, M = compare(A), compare(M)
+                bad = next(((t, x, y) for (t, x), (_, y) in zip(A, M) if x != y), None)
+                if bad is not None:
+                    breaks.append({"stream": f"model vs {fw} {k}/{sname} implementation", "script": sc_, "event": bad[0],
+                                   "model": ";".join(bad[2]), "implementation": ";".join(bad[1])})
+                # a protocol violation must make the transport fail the connection
+                for l in a:
+                    tk = tokens(l)
+                    if "raise:ProtocolError" in tk and not any(t.startswith("t:fail") for t in tk):
+                        res.count(label + "protocol-error-without-transport-failure")
+                for (j, v) in verdicts.get(i, []):
+                    if not owns(v):
+                        continue
+                    key = classify(sc_, j, v, fw)
+                    cur = by_key.get(key)
+                    if cur is None or len(sc_) < len(cur.script):
+                        by_key[key] = Divergence(f"{fw} {k}/{sname}", sc_, j, [v], a[j] if j < len(a) else "", key)
+                    res.count(label + "violation:" + key)
+    res.correspondence_breaks += breaks[:20]
+    res.count(label + "correspondence-breaks", len(breaks))
+    for key, d in sorted(by_key.items()):
+        res.violations.append(core.Violation(
+            key,
+            f"{d.fw} (real transport): event #{d.index} `{d.script[d.index]}`: trace Spec verdict [{';'.join(d.expected)}]; "
+            f"the implementation did [{d.actual}]; script: {' '.join(d.script)}",
+            {"framework": d.fw.split()[0], "transport": d.fw, "script": d.script, "event_index": d.index,
+             "verdict": d.expected, "actual": d.actual}))
+    return {"keys": sorted(by_key), "breaks": len(breaks)}
